@@ -760,6 +760,37 @@ def Breaker.recordSuccess (b : Breaker) (a : String) : Breaker :=
 def Breaker.cleanupOnce (b : Breaker) (nowS : Int) : Breaker :=
   b.filter (fun p => !decide (nowS - p.2.last > 300))
 
+/-- how ONE upstream attempt of `Resolver.queryServer` ended. -/
+inductive Attempt
+  | reply (rcode : Nat)        -- the authority answered (any rcode)
+  | silent                     -- no reply / connection error while the request tree is still live
+  | refused (c : Cause)        -- `exchange` returned an error with typed cause `c` (policy refusals, or `.other`)
+  | endedBefore                -- the attempt's context had ended before anything was sent
+  | endedDuring                -- cancelled / past the client's deadline while waiting
+deriving DecidableEq, Repr
+
+inductive Feed | failure | success | nothing
+deriving DecidableEq, Repr
+
+/-- what `queryServer` tells the circuit breaker about the address: the switch
+after `r.exchange` (work / attempt / probe / recursion-depth refusals and an
+ended context say nothing about the authority; any other error is a failure;
+any reply is a success). -/
+def breakerFeed : Attempt → Feed
+  | .reply _ => .success
+  | .silent => .failure
+  | .refused c =>
+    if c = .workLimit ∨ c = .attemptLimit ∨ c = .probeLimit ∨ c = .maxRecursion then .nothing else .failure
+  | .endedBefore => .nothing
+  | .endedDuring => .nothing
+
+/-- the breaker after the attempt. -/
+def Breaker.feed (b : Breaker) (nowMs : Int) (a : String) (at_ : Attempt) : Breaker :=
+  match breakerFeed at_ with
+  | .failure => b.recordFailure nowMs a
+  | .success => b.recordSuccess a
+  | .nothing => b
+
 /-! ### `FailureHit.Response` -/
 
 structure ReqOpt where
